@@ -218,6 +218,20 @@ CLAIMED = {
             'in the tolerance; sizes are raised to the precondition of the '
             'property by construction.',
             'DESIGN.md section 5, C09'),
+    'C10': ('exploration',
+            'Grammar-based generation of abstract DS9 files rendered to text, '
+            'differential test against a reference interpreter that walks the '
+            'abstract statements (no shared code with regions.io)',
+            'Random search over files of up to 12 (quick) / 40 (thorough) '
+            'statements mixing frames, aliases, unsupported frames/shapes, '
+            'globals, composites, all coordinate notations and size units, '
+            'separators, terminators and text delimiters; every parsed region '
+            'is compared with the reference (count, order, class, frame, '
+            'geometry 1e-9, include, text, tags, flags, colour).',
+            'Reference rules in vf/ref/ds9ref.py written from the DS9 '
+            'reference manual and the property statement; where the manual is '
+            'silent the grammar does not generate.',
+            'DESIGN.md section 5, C10'),
 }
 
 PENDING_REASON = ('check designed (DESIGN.md section 5) but not yet built and '
